@@ -24,6 +24,12 @@ CONSTANTS NRemotes,     \* remotes 1..NRemotes
                         \* "demand": the demand lane "dem" and the demand-map lane "dmap" are addressed (link / sync /
                         \*           unlink) and cued by the agent's handlers (cue dem, cuek dmap <k>)
                         \* "http":   HTTP requests are made to the agent (its HTTP lane "http", unknown lane names)
+                        \* "join":   the agent's handlers add / remove downlinks of the join value lane "jv" and the join map
+                        \*           lane "jm" (which remotes may link to and sync with); the environment plays the remote
+                        \*           lanes of those downlinks
+                        \* "hosted": the agent's handlers open a value and a map downlink, write through their handles, close
+                        \*           them; the environment plays their remote lanes, refuses / delays the opening, closes
+                        \*           and breaks the channels
 
 VARIABLES script, att, gone, nv, restarts, kind
 vars == <<script, att, gone, nv, restarts, kind>>
@@ -31,7 +37,8 @@ vars == <<script, att, gone, nv, restarts, kind>>
 Remotes == 1..NRemotes
 Live == att \ gone
 DLanes == IF "demand" \in Faults THEN {"dem", "dmap"} ELSE {}
-Lanes == VLanes \cup MLanes \cup SLanes \cup DLanes
+JLanes == IF "join" \in Faults THEN {"jv", "jm"} ELSE {}
+Lanes == VLanes \cup MLanes \cup SLanes \cup DLanes \cup JLanes
 NS == IF Burst THEN {TRUE, FALSE} ELSE {FALSE}
 
 Init == script = <<>> /\ att = {} /\ gone = {} /\ nv = 1 /\ restarts = 0 /\ kind = "none"
@@ -119,6 +126,11 @@ DProto == \E r \in Live : \E l \in DLanes : \E op \in {"link", "sync", "unlink"}
             /\ Emit([k |-> "send", r |-> r, lane |-> l, op |-> op, nosettle |-> ns])
             /\ UNCHANGED <<att, gone, nv, restarts>>
 
+\* "join": link / sync / unlink on the join lanes only (Proto addresses them as well, among all the lanes)
+JProto == \E r \in Live : \E l \in JLanes : \E op \in {"link", "sync", "unlink"} : \E ns \in NS :
+            /\ Emit([k |-> "send", r |-> r, lane |-> l, op |-> op, nosettle |-> ns])
+            /\ UNCHANGED <<att, gone, nv, restarts>>
+
 \* "demand": a program of one or two instructions for the agent's handlers that cues the stateless lanes and changes
 \* what they compute from (dem computes from "val", dmap from "map") - a small instruction set of its own so that the
 \* number of successors stays small
@@ -147,6 +159,80 @@ Http == /\ "http" \in Faults
                 /\ Emit([k |-> "http", method |-> m, lane |-> l, v |-> nv, bad |-> bad, id |-> nv, nosettle |-> ns])
                 /\ nv' = nv + 1 /\ UNCHANGED <<att, gone, restarts>>
 
+\* ---- "join" / "hosted": downlinks hosted by the agent.  A downlink is identified by the value of the counter when the
+\* instruction that opens it was generated (its node uri is "/d<id>"); no state is added: which downlinks exist is read
+\* off the script generated so far (since the last restart).
+LastRestart == LET S == {j \in 1..Len(script) : script[j].k = "restart"} IN
+               IF S = {} THEN 0 ELSE CHOOSE j \in S : \A x \in S : x <= j
+Progs == {j \in (LastRestart + 1)..Len(script) : script[j].k = "send" /\ "m" \in DOMAIN script[j] /\ script[j].m = "prog"}
+\* the instructions of the programs generated so far that open a downlink: <<kind, id>>
+OpenedBy(j) == LET p == script[j].prog IN
+    {<<p[x].i, p[x].id>> : x \in {y \in 1..Len(p) : p[y].i \in {"jadd", "jmadd", "dlv", "dlm"}}}
+Opened == UNION {OpenedBy(j) : j \in Progs}
+OpenedIds == {o[2] : o \in Opened}
+KindOf(id) == LET o == CHOOSE o \in Opened : o[2] = id IN
+              CASE o[1] = "jadd" -> "event" [] o[1] = "jmadd" -> "mapevent" [] o[1] = "dlv" -> "value" [] OTHER -> "map"
+Resps == {"retry", "abandon", "delete"}
+JLinks == {1, 2}      \* link keys of the join map lane
+
+\* "join": a program of one or two instructions for the agent's handlers that adds / removes downlinks of the join lanes
+JInstr(n) ==
+    {[i |-> "jadd", lane |-> "jv", key |-> key, id |-> n, resp |-> rs] : key \in Keys, rs \in Resps}
+    \cup {[i |-> "jrem", lane |-> "jv", key |-> key] : key \in Keys}
+    \cup {[i |-> "jmadd", lane |-> "jm", key |-> l, id |-> n, resp |-> rs] : l \in JLinks, rs \in Resps}
+    \cup {[i |-> "jmrem", lane |-> "jm", key |-> l] : l \in JLinks}
+    \cup {[i |-> "jget", lane |-> l] : l \in {"jv", "jm"}}
+JoinCmd == /\ "join" \in Faults
+           /\ \E r \in Live : \E len \in 1..2 : \E a \in JInstr(nv) : \E b \in JInstr(nv + 1) : \E ns \in NS :
+                /\ (len = 1 => b = a)
+                /\ Emit([k |-> "send", r |-> r, lane |-> "cmd", op |-> "cmd", m |-> "prog",
+                         prog |-> SubSeq(<<a, b>>, 1, len), tag |-> nv, nosettle |-> ns])
+                /\ nv' = nv + 2 /\ UNCHANGED <<att, gone, restarts>>
+
+\* "hosted": a program of one or two instructions that opens / writes to / closes the value and the map downlink, or
+\* changes the lanes the downlinks' handlers also change (val, map): handlers of downlinks and lanes interleave
+\* (flags: 1 = events when not synced, 2 = keep the downlink when it is unlinked)
+HInstr(n) ==
+    {[i |-> "dlv", id |-> n, flags |-> f] : f \in 0..3}
+    \cup {[i |-> "dlm", id |-> n, flags |-> f] : f \in 0..3}
+    \cup {[i |-> "dlset", v |-> n]}
+    \cup {[i |-> "dlmu", key |-> key, v |-> n] : key \in Keys}
+    \cup {[i |-> "dlmr", key |-> key] : key \in Keys}
+    \cup {[i |-> "dlmc"]}
+    \cup {[i |-> "dlclose", which |-> w] : w \in {"v", "m"}}
+    \cup {[i |-> "set", lane |-> "val", v |-> n]}
+    \cup {[i |-> "upd", lane |-> "map", key |-> key, v |-> n] : key \in Keys}
+HostedCmd == /\ "hosted" \in Faults
+             /\ \E r \in Live : \E len \in 1..2 : \E a \in HInstr(nv) : \E b \in HInstr(nv + 1) : \E ns \in NS :
+                  /\ (len = 1 => b = a)
+                  /\ Emit([k |-> "send", r |-> r, lane |-> "cmd", op |-> "cmd", m |-> "prog",
+                           prog |-> SubSeq(<<a, b>>, 1, len), tag |-> nv, nosettle |-> ns])
+                  /\ nv' = nv + 2 /\ UNCHANGED <<att, gone, restarts>>
+
+\* the environment plays the remote lane of an opened downlink (sequences: the repetitions are weights), closes its
+\* channels, feeds it a frame it cannot decode, stops reading what it writes
+DlDo == <<"linked", "linked", "synced", "synced", "event", "event", "event", "event", "unlinked", "close", "fail", "outfail">>
+MapEv(n) == {[m |-> "upd", key |-> key, v |-> n] : key \in Keys} \cup {[m |-> "upd", key |-> key, v |-> n] : key \in Keys}
+            \cup {[m |-> "rem", key |-> key, v |-> 0] : key \in Keys} \cup {[m |-> "clr", key |-> 0, v |-> 0]}
+            \cup {[m |-> "take", key |-> 0, v |-> c] : c \in {1}} \cup {[m |-> "drop", key |-> 0, v |-> c] : c \in {1}}
+DlEnv == /\ OpenedIds # {}
+         /\ \E id \in OpenedIds : \E di \in 1..Len(DlDo) : \E ns \in NS :
+              LET do == DlDo[di]  kd == KindOf(id) IN
+              /\ (do = "outfail" => kd \in {"value", "map"})
+              /\ IF do = "event" /\ kd \in {"map", "mapevent"}
+                   THEN \E ev \in MapEv(nv) :
+                          Emit([k |-> "dl", id |-> id, do |-> do, m |-> ev.m, key |-> ev.key, v |-> ev.v, n |-> ev.v, nosettle |-> ns])
+                   ELSE Emit([k |-> "dl", id |-> id, do |-> do, v |-> nv, nosettle |-> ns])
+              /\ nv' = nv + 1 /\ UNCHANGED <<att, gone, restarts>>
+
+\* how the requests of the agent for a downlink are answered from now on (id 0: every downlink without a policy of its own)
+DlOpen == /\ JLanes # {} \/ "hosted" \in Faults
+          /\ \E id \in OpenedIds \cup {0} : \E hi \in 1..6 :
+               /\ Emit([k |-> "dlopen", id |-> id, how |-> <<"ok", "ok", "ok", "refuse", "fatal", "delay">>[hi]])
+               /\ UNCHANGED <<att, gone, nv, restarts>>
+
+DlRead == /\ Emit([k |-> "dlread"]) /\ UNCHANGED <<att, gone, nv, restarts>>
+
 Read == \E r \in Live : \E n \in {0, 1, 2} :
             /\ Emit([k |-> "read", r |-> r, n |-> n])
             /\ UNCHANGED <<att, gone, nv, restarts>>
@@ -173,7 +259,9 @@ Kinds == {"attach", "proto1", "proto2", "proto3", "set1", "set2", "map1", "map2"
           "read1", "read2", "read3", "gone", "quiesce", "restart", "unknown", "adv1", "adv2", "adv3", "badcmd",
           \* (enabled only by the features "demand" / "http": without them no successor is added anywhere, so the scripts
           \* generated for the other profiles are what they were)
-          "dproto1", "dproto2", "dcmd1", "dcmd2", "dcmd3", "http1", "http2", "http3"}
+          "dproto1", "dproto2", "dcmd1", "dcmd2", "dcmd3", "http1", "http2", "http3",
+          \* (likewise "join" / "hosted")
+          "jproto1", "jcmd1", "jcmd2", "hcmd1", "hcmd2", "dlenv1", "dlenv2", "dlenv3", "dlenv4", "dlenv5", "dlopen1", "dlread1"}
 
 Can(kd) ==
     CASE kd = "attach" -> att # Remotes
@@ -191,6 +279,12 @@ Can(kd) ==
       [] kd \in {"dproto1", "dproto2"} -> Live # {} /\ DLanes # {}
       [] kd \in {"dcmd1", "dcmd2", "dcmd3"} -> Live # {} /\ "demand" \in Faults
       [] kd \in {"http1", "http2", "http3"} -> "http" \in Faults
+      [] kd = "jproto1" -> Live # {} /\ JLanes # {}
+      [] kd \in {"jcmd1", "jcmd2"} -> Live # {} /\ "join" \in Faults
+      [] kd \in {"hcmd1", "hcmd2"} -> Live # {} /\ "hosted" \in Faults
+      [] kd \in {"dlenv1", "dlenv2", "dlenv3", "dlenv4", "dlenv5"} -> Faults \cap {"join", "hosted"} # {} /\ OpenedIds # {}
+      [] kd = "dlopen1" -> Faults \cap {"join", "hosted"} # {}
+      [] kd = "dlread1" -> "hosted" \in Faults /\ OpenedIds # {}
 
 Do(kd) ==
     CASE kd = "attach" -> Attach
@@ -208,6 +302,12 @@ Do(kd) ==
       [] kd \in {"dproto1", "dproto2"} -> DProto
       [] kd \in {"dcmd1", "dcmd2", "dcmd3"} -> DemCmd
       [] kd \in {"http1", "http2", "http3"} -> Http
+      [] kd = "jproto1" -> JProto
+      [] kd \in {"jcmd1", "jcmd2"} -> JoinCmd
+      [] kd \in {"hcmd1", "hcmd2"} -> HostedCmd
+      [] kd \in {"dlenv1", "dlenv2", "dlenv3", "dlenv4", "dlenv5"} -> DlEnv
+      [] kd = "dlopen1" -> DlOpen
+      [] kd = "dlread1" -> DlRead
 
 Pick == /\ kind = "none" /\ Len(script) < MaxLen
         /\ \E kd \in Kinds : Can(kd) /\ kind' = kd
